@@ -409,12 +409,18 @@ def judge(scn, rec):
             continue
         if any(not (f == 'timeout' or f.startswith('cc:')) for f in faults.values()):
             continue        # malformed replies are outside the property's quantifier (only compared with the model)
+        if b is None:
+            # nothing the library implements is offered: establishing must fail, nothing else is required
+            if outs[0][0] == 0:
+                return ('establish-without-common-type', 'establish_session succeeded although support byte %#04x offers '
+                        'no implemented authentication type' % seg['bmc']['caps'])
+            continue
         if bmc.viol is not None:
             extra = ''
             if bmc.viol == 5:
                 req = [x for x in lg if dg_step(x['dg']) == 2]
                 a = ipmb_parse(bmc_parse(req[0]['dg'])['frame'])[3][0] if req else -1
-                return ('auth-choice:requested-type-%d' % a,
+                return ('auth-choice:prefers-unimplemented-type',
                         'BMC offering support byte %#04x (strongest implemented type: %s) was asked for authentication '
                         'type %d in Get Session Challenge' % (seg['bmc']['caps'], b, a))
             return ('bmc-rule-%d' % bmc.viol, 'reference BMC: datagram breaks rule "%s"%s (segment %d)'
@@ -564,8 +570,17 @@ def decode_cases(rng, q, add):
     for sup in range(256):
         rsp = create_message(7, 0x38, None)
         decode_message(rsp, bytes([0, 1, sup, 0, 0, 0, 0, 0, 0]))
-        a = ChannelAuthenticationCapabilities(rsp).get_max_auth_type()
-        add('chk_max_auth %d %d' % (sup, 999 if a is None else a), ('max_auth', sup))
+        caps = ChannelAuthenticationCapabilities(rsp)
+        a = caps.get_max_auth_type()
+        add('chk_max_auth %d None %d' % (sup, 999 if a is None else a), ('max_auth', sup))
+        for supported in ((0, 4, 2), (1, 2), ()):
+            try:
+                a = caps.get_max_auth_type(supported)
+                a = 999 if a is None else a
+            except TypeError:
+                a = 998             # the unrepaired signature takes no argument
+            add('chk_max_auth %d (Some %s) %d' % (sup, C.c_list([str(x) for x in supported]), a),
+                ('max_auth_supported', sup, supported))
 
     def dec(cmd, d, fields, onerr):
         rsp = create_message(7, cmd, None)
